@@ -113,7 +113,9 @@ pub struct SoundDev {
     // tx
     tx_inflight: Vec<(Chain, u32, Vec<u8>)>,
     script: Option<VecDeque<Act>>,
-    delivered: Vec<(u32, u32, Vec<u8>)>, // stream id, status, data
+    delivered: Vec<(u32, u32, Vec<u8>)>, // stream id, status, data (completion order)
+    /// the PCM messages in the order the driver made them available (submission order)
+    fetched: Vec<Vec<u8>>,
     tx_fetched: usize,
     ooo: bool,
     err_status: bool,
@@ -341,6 +343,7 @@ impl SoundDev {
                         }
                     }
                     self.tx_fetched += 1;
+                    self.fetched.push(data.clone());
                     self.tx_inflight.push((c, sid, data));
                     self.max_inflight = self.max_inflight.max(self.tx_inflight.len());
                     if self.tx_inflight.len() > 32 {
@@ -519,6 +522,7 @@ pub fn one_case(ctx: &Ctx, i: usize, id: String, stream_name: &str) -> Case {
         tx_inflight: vec![],
         script: None,
         delivered: vec![],
+        fetched: vec![],
         tx_fetched: 0,
         ooo: false,
         err_status: false,
@@ -572,6 +576,7 @@ pub fn one_case(ctx: &Ctx, i: usize, id: String, stream_name: &str) -> Case {
             d.ctl_recs.clear();
             d.script = None;
             d.delivered.clear();
+            d.fetched.clear();
             d.tx_fetched = 0;
             d.ooo = false;
             d.err_status = false;
@@ -738,9 +743,19 @@ pub fn one_case(ctx: &Ctx, i: usize, id: String, stream_name: &str) -> Case {
                 // ---- oracles on the transfer ----
                 match &r {
                     Ok(Ok(())) => {
-                        let all: Vec<u8> = d.delivered.iter().flat_map(|(_, _, x)| x.clone()).collect();
+                        // in order, exactly once: what the driver made available, in submission order,
+                        // concatenates to the caller's frames; the device (which may complete in any
+                        // order) answered exactly those messages
+                        let all: Vec<u8> = d.fetched.iter().flat_map(|x| x.clone()).collect();
                         if all != frames {
-                            c.fail(format!("pcm_xfer returned Ok but the device received {} bytes in {} messages that do not concatenate to the caller's {} frame bytes", all.len(), d.delivered.len(), frames.len()));
+                            c.fail(format!("pcm_xfer returned Ok but the device received {} bytes in {} messages that do not concatenate to the caller's {} frame bytes", all.len(), d.fetched.len(), frames.len()));
+                        }
+                        let mut a: Vec<&Vec<u8>> = d.fetched.iter().collect();
+                        let mut b: Vec<&Vec<u8>> = d.delivered.iter().map(|(_, _, x)| x).collect();
+                        a.sort();
+                        b.sort();
+                        if a != b {
+                            c.fail(format!("pcm_xfer returned Ok but only {} of the {} submitted messages were completed", d.delivered.len(), d.fetched.len()));
                         }
                         if d.delivered.iter().any(|(sid, _, _)| *sid != stream) {
                             c.fail("a PCM message is tagged with a different stream id than the caller's");
@@ -766,8 +781,9 @@ pub fn one_case(ctx: &Ctx, i: usize, id: String, stream_name: &str) -> Case {
                                 c.fail(format!("pcm_xfer returned {:?} with {} buffers still shared", e, leak));
                             }
                         }
-                        if d.tx_fetched > 0 && !d.ooo && !d.err_status {
-                            c.fail(format!("pcm_xfer failed with {:?} against an in-order all-OK device", e));
+                        // (since repair F15 completions are matched by token: the order does not matter)
+                        if d.tx_fetched > 0 && !d.err_status {
+                            c.fail(format!("pcm_xfer failed with {:?} although the device answered every message with OK", e));
                         }
                         if *e == Error::QueueFull {
                             c.fail("pcm_xfer exceeded the queue capacity (QueueFull)");
